@@ -46,6 +46,60 @@ def _lane(tree, i):
     return jax.tree.map(lambda x: x[i], tree)
 
 
+POISON = (None, float("nan"), float("inf"), -1e30)
+
+
+def native_lane_replay(make_algo, make_state, train_patch, N=3):
+    """R1 (relational): the real `iteration` natively on N concrete lanes with pseudo-random generic collaborators vs the real single-lane `collect_rollout` on
+    lane i's inputs, with the OTHER lanes set in turn to random, NaN, inf and huge values - lane i must not notice."""
+    cache = {}
+
+    def replay(model):
+        if "r" not in cache:
+            cache["r"] = _replay(model)
+        return cache["r"]
+
+    def _replay(model):
+        from lvc import opaque
+        algo = make_algo(N)
+        cb = SimpleCallback("cb")
+        rng = np.random.RandomState(5)
+        old = opaque.IGNORE_KEYS
+        opaque.IGNORE_KEYS = False
+        try:
+            for poison in POISON:
+                for lane in (0, N - 1):
+                    st = make_state(N, rng)
+                    if poison is not None:
+                        def poke(x):
+                            if not (eqx.is_inexact_array(x) and x.ndim >= 1 and x.shape[0] == N):
+                                return x
+                            m = (jnp.arange(N) != lane).reshape((N,) + (1,) * (x.ndim - 1))
+                            return jnp.where(m, jnp.asarray(poison, x.dtype), x)
+                        st = eqx.tree_at(lambda s: s.step_state.env_state, st, jax.tree.map(poke, st.step_state.env_state))
+                    key = jax.random.key(11)
+                    with extract.patched(train_patch):
+                        out = algo.iteration(st, key=key, callback=cb)
+                    single = algo.collect_rollout(st.env, st.policy, _lane(st.step_state, lane), cb, jr.split(jr.split(key, 3)[0], N)[lane])
+                    got = out.step_state if not isinstance(single, tuple) else (out.step_state, out.opt_state)
+                    gl = [x for x in jax.tree.leaves(_lane_tree(got, lane)) if eqx.is_array(x)]
+                    sl = [x for x in jax.tree.leaves(single) if eqx.is_array(x)]
+                    for n, (a, b) in enumerate(zip(gl, sl)):
+                        a, b = np.asarray(jax.random.key_data(a) if jax.dtypes.issubdtype(a.dtype, jax.dtypes.prng_key) else a), np.asarray(jax.random.key_data(b) if jax.dtypes.issubdtype(b.dtype, jax.dtypes.prng_key) else b)
+                        if a.shape != b.shape or not np.allclose(a, b, rtol=1e-5, atol=1e-6, equal_nan=True):
+                            return dict(reproduced=True, route="R1 relational (real iteration on N lanes vs real collect_rollout on one lane; generic collaborators = deterministic pseudo-random functions)",
+                                        inputs=dict(N=N, lane=lane, other_lanes_env_state=("random" if poison is None else repr(poison)), key=11),
+                                        observed=dict(leaf=n, batched_lane=a.tolist(), single=b.tolist()))
+            return dict(reproduced=False, note=f"{2 * len(POISON)} native lane comparisons agree")
+        finally:
+            opaque.IGNORE_KEYS = old
+    return replay
+
+
+def _lane_tree(tree, i):
+    return jax.tree.map(lambda x: x[i] if eqx.is_array(x) else x, tree)
+
+
 def unit_on_policy(S):
     fn = "lerax.algorithm.on_policy:AbstractOnPolicyAlgorithm.iteration"
     S.under_contract(fn, "lerax.algorithm.on_policy:AbstractOnPolicyAlgorithm.collect_rollout")
@@ -68,13 +122,17 @@ def unit_on_policy(S):
         Nz = ctx.dim(N)
         single = run(ctx, lambda a, s, kk, ii: a.collect_rollout(s.env, s.policy, _lane(s.step_state, ii), cb, jr.split(jr.split(kk, 3)[0], N)[ii]), algo, st, k, i)
         hyp = [Nz >= 2, ic >= 0, ic < Nz]
+        cls = type(algo)
+        rp = native_lane_replay((lambda n, cls=cls: cls(num_envs=n, num_steps=2, num_batches=1) if cls is PPO else cls(num_envs=n, num_steps=2)),
+                                (lambda n, rng, mk_state=mk_state: mk_state(jnp.asarray(0), *[jnp.asarray(rng.randn(*s), f32) for s in ((n, 2), (n, 1), (n, 1), (2,), (3,), (1,))])),
+                                (cls, "train", train_stub))
         ss_b, buf_b = out.step_state, out.opt_state
         ss_s, buf_s = single
         named = jax.tree_util.tree_flatten_with_path((ss_b, buf_b), is_leaf=kit.is_sarr)[0]
         named_s = jax.tree_util.tree_flatten_with_path((ss_s, buf_s), is_leaf=kit.is_sarr)[0]
         for (pth, lb), (_, ls) in zip([x for x in named if kit.is_sarr(x[1])], [x for x in named_s if kit.is_sarr(x[1])]):
             nm = jax.tree_util.keystr(pth).replace("[0]", "step_state").replace("[1]", "rollout")
-            S.prove(f"{name}/lane-i{nm}", ctx, kit.lane_eq(lb, ls, ic), hyps=hyp, function=fn,
+            S.prove(f"{name}/lane-i{nm}", ctx, kit.lane_eq(lb, ls, ic), hyps=hyp, function=fn, replay=rp,
                     what="lane i of the N-environment collection equals the single-environment collection from (step_state[i], split(rollout_key, N)[i]): nothing crosses between environments")
         S.samples.append(dict(algo=name, leaves=len(named)))
 
@@ -104,10 +162,20 @@ def unit_off_policy(S):
         single = run(ctx, lambda a, s, kk, ii: a.collect_rollout(s.env, s.policy, _lane(s.step_state, ii), cb, jr.split(jr.split(kk, 3)[0], N)[ii]), algo, st, k, i)
     Nz = ctx.dim(N)
     hyp = [Nz >= 2, ic >= 0, ic < Nz, z3.ForAll([z3.Int("e0")], st.step_state.buffer.position.at(z3.Int("e0")) >= 0)]
+    def conc_state(n, rng):
+        rb1 = ReplayBuffer(2, OBS, Discrete(3), GPState(jnp.zeros((1,), f32)))
+        rbn = jax.tree.map(lambda x: jnp.broadcast_to(x, (n,) + x.shape), rb1)
+        s = mk_state(jnp.asarray(0), *[jnp.asarray(rng.randn(*sh), f32) for sh in ((n, 2), (n, 1), (n, 1), (2,), (3,), (1,), (2,))], *jax.tree.leaves(rbn))
+        return eqx.tree_at(lambda s: (s.policy.epsilon, s.target_policy.epsilon), s, (0.0, 0.0))
+
+    def off_replay(model):
+        with _dx.cut():
+            return native_lane_replay(lambda n: DQN(num_envs=n, buffer_size=2 * n, learning_starts=1, num_steps=2, batch_size=1), conc_state, (DQN, "dqn_train", train_stub))(model)
+    rp = off_replay
     named = [x for x in jax.tree_util.tree_flatten_with_path(out.step_state, is_leaf=kit.is_sarr)[0] if kit.is_sarr(x[1])]
     named_s = [x for x in jax.tree_util.tree_flatten_with_path(single, is_leaf=kit.is_sarr)[0] if kit.is_sarr(x[1])]
     for (pth, lb), (_, ls) in zip(named, named_s):
-        S.prove(f"DQN/lane-i{jax.tree_util.keystr(pth)}", ctx, kit.lane_eq(lb, ls, ic), hyps=hyp, function=fn,
+        S.prove(f"DQN/lane-i{jax.tree_util.keystr(pth)}", ctx, kit.lane_eq(lb, ls, ic), hyps=hyp, function=fn, replay=rp,
                 what="lane i (env state, policy state, callback state and the environment's OWN replay buffer) equals the single-environment collection on lane i's inputs")
 
 
